@@ -326,7 +326,7 @@ PROPS["C16"] = dict(_c16b, kinds=["build", "lib13"], generate=_gen16,
 
 # what is stated but not (yet) proved in Lean, per property: covered only by the correspondence and the oracle
 STATED_NOT_PROVED = {
-    "C01": ["programs with writes are covered for STATIC roles (C01_full_*: WellFormedBody, WriteExact); role-changing programs with writes: no theorem (findings K3/K4)",
+    "C01": ["programs with writes are covered for STATIC roles (C01_full_*: WellFormedBody, WriteExact; mixed histories with bottom-up builds: C01_full_mixed_history under Reflexive, shown necessary by C01_full_mixed_history_false); role-changing programs with writes: no theorem (findings K3/K4)",
             "failing stampers excluded by StampTotal (finding K5)"],
     "C04": ["C04_bu_once needs NoOrphan (no aborted task with leftover dependencies): without it the real code executes a task twice (finding K7)"],
     "C05": ["global clause 'a build that returns leaves every reader dependent on the generator' is false on the real code (finding K4; kernel-checked counterexample C05_history_breaks_noHidden)"],
